@@ -394,7 +394,7 @@ def run_task(task):
                      'seed': rng.randrange(1 << 40), 'p_event': rng.choice((0.05, 0.3, 0.6)),
                      'depth': rng.choice((1, 2, 3)),
                      'net': {'chunk': rng.choice(('whole', 'few', 'crlf', 'bytes')),
-                             'latency': rng.choice(('const', 'uniform', 'heavy'))}}
+                             'latency': rng.choice(('const', 'uniform', 'heavy', 'outage'))}}
             plan = {'family': 'S4', 'msgs': _plan_msgs(msgs), 'eof': eof, 'sched': sched,
                     'cuts': None}
             r = rng.random()
